@@ -15,7 +15,38 @@ EXPLANATION = (
     "rename. A4: a blob file created for the active slot is always installed or returned: from the ok edge of Blob::open_new every "
     "path to an ok exit passes a store into the active slot / replace_active_blob or returns the blob (no orphan file with a "
     "consumed id). Decides this bookkeeping structure, not equality of every gauge with the history.")
+EXPLANATION += (" " + 'A7 = moved-out blobs are handed back on every non-error exit; A8 = C04.T7; A1 additionally checks the count the loaders return.')
 ASSUMPTIONS = []
+
+
+def loader_returns_count(ctx, rid):
+    prog = ctx.prog
+    # (b') what the loaders return as the count: the header's records_count, not a property of the rebuilt key map
+    m = 0
+    for im in [f for f in prog.fns.values() if f.id.endswith('FileIndexTrait<K>>::get_records_headers')]:
+        for fid in prog.family(im.id):
+            g = prog.fns[fid]
+            for i, b in enumerate(g.blocks):
+                if b['c'] or i not in g.reachable():
+                    continue
+                for st in b['s']:
+                    if st['k'] != 'a' or st['r']['k'] != 'agg' or st['r'].get('ak') != 'tuple' or len(st['r']['ops']) != 2:
+                        continue
+                    ty = core.place_type_str(g, st['d']) or ''
+                    if not (ty.startswith('(') and ty.rstrip().endswith('usize)') and 'BTreeMap' in ty):
+                        continue
+                    m += 1
+                    key = 'loader-returns-file-count|%s' % im.id
+                    op = st['r']['ops'][1]
+                    leafs = core.field_leaf_names(g, op)
+                    flds = leafs == {'records_count'}
+                    other = [] if flds else core.origins(g, op)
+                    if flds and not other:
+                        ctx.ok(rid, key, g.where(i), 'the returned count is header.records_count')
+                    else:
+                        ctx.bad(rid, key, g.where(i), 'the count returned next to the rebuilt header map is not the records_count of the index header (origins: %s): after a reload the record count of the blob differs from the number of records stored in it' % other[:3])
+    if m < 2:
+        raise core.AnchorLost('(headers, count) results of get_records_headers: %d' % m)
 
 
 def a1(ctx, rid):
@@ -84,6 +115,7 @@ def a1(ctx, rid):
                 ctx.ok(rid, key, c.where(), 'count comes from the index file (%s)' % good[0].name)
             else:
                 ctx.bad(rid, key, c.where(), 'the in-memory record count is not seeded from the count recorded in the index file (origins: %s)' % [x.full[:60] for x in calls])
+    loader_returns_count(ctx, rid)
     newf = prog.fns.get('blob::index::core::InMemoryData::<K>::new')
     if newf is None or n < 1:
         raise core.AnchorLost('InMemoryData::new / its callers')
